@@ -469,6 +469,45 @@ func c03(x *mon.Ctx) {
 	x.Require("tcb-control-second-genuine-signer", nw, 0, nw)
 	x.Require("qe-signer-is-platform-ca", 0, nw, nw)
 	stageEventsForgedUnderDefaultRoot(x)
+
+	// ---- many distinct collateral signers under one pool, then the first chains again (see manyThenAgain)
+	{
+		r := x.Rand("scale")
+		w := world.Honest(r, world.HonestOpts{Shape: world.QuoteShape{AuthLen: 32}})
+		var early []*world.Case
+		add := func(w2 *world.World, name, expect string) {
+			c := w2.Case(world.LColl, "", name)
+			c.Expect, c.ShadowSkip = expect, true
+			early = append(early, c)
+		}
+		add(w, "honest", "accept")
+		for k := 0; k < 12; k++ {
+			w2 := w.Clone()
+			switch k % 3 {
+			case 0: // both documents re-signed under a look-alike hierarchy (names, serials, key identifiers copied)
+				lk := world.LookalikePKI(w.PKI, world.SgxExtension(w.P))
+				w2.PKI.TcbSign = lk.TcbSign
+				w2.Resign()
+				w2.TcbHdr = map[string][]string{world.HdrTcbInfo: {world.IssuerChain(lk.TcbSign, lk.Root)}}
+				w2.QeHdr = map[string][]string{world.HdrQeID: {world.IssuerChain(lk.TcbSign, lk.Root)}}
+				add(w2, fmt.Sprintf("lookalike-signer-chain/%d", k), "reject")
+			case 1: // signed by the platform CA (a genuine certificate of the wrong role)
+				w2.PKI.TcbSign = w.PKI.Inter
+				w2.Resign()
+				add(w2, fmt.Sprintf("platform-ca-as-signer/%d", k), "reject")
+			case 2: // another genuine signer edition
+				w2.PKI.TcbSign = world.Issue(world.TcbSignTemplate(world.Far), w.PKI.Root, world.NewKey())
+				w2.Resign()
+				add(w2, fmt.Sprintf("honest-other-signer/%d", k), "accept")
+			}
+		}
+		manyThenAgain(x, "many-signers-then-the-first-again", early, x.Pick(1200, 70000), func(i int) *world.Case {
+			w2 := w.Clone()
+			w2.PKI.TcbSign = world.Issue(world.TcbSignTemplate(world.Far), w.PKI.Root, world.NewKey())
+			w2.Resign()
+			return w2.Case(world.LColl, "", "")
+		})
+	}
 }
 
 func indexOf(d docRef) int {
